@@ -36,21 +36,31 @@ func (r *Replayer) Replay(process func(record []byte) error) (err error) {
 	// do not rely on the order of the FS, we do an additional sort to make sure we start reading from 0000 to 9999
 	sort.Strings(walFiles)
 
-	var toClose []recordio.ReaderI
+	// only the file that is being replayed is kept open: there can be more WAL files than descriptors
+	var current recordio.ReaderI
 	defer func() {
-		for _, reader := range toClose {
-			err = errors.Join(err, reader.Close())
+		if current != nil {
+			err = errors.Join(err, current.Close())
 		}
 	}()
 
 	for i, path := range walFiles {
+		if current != nil {
+			// done with the previous file
+			closeErr := current.Close()
+			current = nil
+			if closeErr != nil {
+				return closeErr
+			}
+		}
+
 		// a crash can only tear the file that was written last: everything before was closed by a rotation
 		isLast := i == len(walFiles)-1
 		reader, err := r.walOptions.readerFactory(path)
 		if err != nil {
 			return fmt.Errorf("error while creating WAL reader under '%s': %w", path, err)
 		}
-		toClose = append(toClose, reader)
+		current = reader
 
 		err = reader.Open()
 		if err != nil {
